@@ -135,6 +135,8 @@ fn loaded(r: Result<Schema, String>, keep: &mut Vec<(String, Schema)>, label: &s
 pub fn run(case: &J) -> R<J> {
     let s = &case["s"];
     let style = Style(case.get("style").and_then(|x| x.as_u64()).unwrap_or(0));
+    // the renderings themselves are echoed only on request (replays): they are functions of (s, style)
+    let verbose = case.get("verbose").and_then(|x| x.as_bool()).unwrap_or(false);
     let js = unresolved_json(s, style)?;
     let mut ann = Map::new();
     let cs = unresolved_cedar(s, style)?;
@@ -159,7 +161,9 @@ pub fn run(case: &J) -> R<J> {
                     if let Ok((f2, _)) = SchemaFragment::from_cedarschema_str(&text) {
                         ann.insert("JC".into(), annotations_of(f2));
                     }
-                    steps.insert("JC_text".into(), json!(text));
+                    if verbose {
+                        steps.insert("JC_text".into(), json!(text));
+                    }
                 }
             }
             match frag.to_json_value() {
@@ -235,9 +239,12 @@ pub fn run(case: &J) -> R<J> {
             lib_eq.insert(format!("{l0}={l}"), json!(v0 == v));
         }
     }
-    let mut out = json!({"ev": "SchemaSyn", "s": s, "steps": steps, "lib_eq": lib_eq, "ann": ann, "json": js, "style": style.0});
-    if let Some(t) = cs {
-        out["cedar_text"] = json!(t);
+    let mut out = json!({"ev": "SchemaSyn", "s": s, "steps": steps, "lib_eq": lib_eq, "ann": ann, "style": style.0});
+    if verbose {
+        out["json"] = js;
+        if let Some(t) = cs {
+            out["cedar_text"] = json!(t);
+        }
     }
     for k in ["id", "coord", "cedar", "ok"] {
         if let Some(v) = case.get(k) {
